@@ -32,18 +32,27 @@ func errorish(v ssa.Value) bool {
 // C11.R2 paged path of Replay.
 
 func checkReplayPaged(c *Ctx, p *Prog, R *BusRoles, rule string) {
-	f := p.Method(PkgBus, "EventBus", "Replay")
-	if f == nil {
+	root := p.Method(PkgBus, "EventBus", "Replay")
+	if root == nil {
 		c.Unresolved(rule, "UNRESOLVED-ANCHOR/Replay", "method not found")
 		return
 	}
+	// the paged loop may live in a helper called from Replay
+	f := root
 	var read *ssa.Call
-	for _, b := range f.Blocks {
-		for _, in := range b.Instrs {
-			if call, ok := in.(*ssa.Call); ok && call.Common().IsInvoke() && call.Common().Method.Name() == "Read" && isNamed(call.Common().Value.Type(), PkgBus, "EventStore") {
-				read = call
+	for _, g := range reachFuncs(p, root, PkgBus) {
+		for _, b := range g.Blocks {
+			for _, in := range b.Instrs {
+				if call, ok := in.(*ssa.Call); ok && call.Common().IsInvoke() && call.Common().Method.Name() == "Read" && isNamed(call.Common().Value.Type(), PkgBus, "EventStore") {
+					read, f = call, g
+				}
 			}
 		}
+	}
+	fromP, ctxP := paramOfType(f, PkgBus, "Offset"), paramOfType(f, "context", "Context")
+	if fromP == nil || ctxP == nil {
+		c.Unresolved(rule, "UNRESOLVED-ANCHOR/Replay/paged-params", "the paged replay function has no (ctx, from) parameters")
+		return
 	}
 	if read == nil {
 		c.Unresolved(rule, "UNRESOLVED-ANCHOR/Replay/paged-read", "Replay has no EventStore.Read call")
@@ -86,10 +95,10 @@ func checkReplayPaged(c *Ctx, p *Prog, R *BusRoles, rule string) {
 	// (a) cursor: the offset handed to Read is a loop phi fed by the parameter and by Read's next offset
 	okCursor := false
 	var cursor *ssa.Phi
-	if ph, ok := stripConv(read.Common().Args[1]).(*ssa.Phi); ok && len(f.Params) >= 3 {
+	if ph, ok := stripConv(read.Common().Args[1]).(*ssa.Phi); ok {
 		fromParam, fromNext := false, false
 		for _, ed := range ph.Edges {
-			if stripConv(ed) == ssa.Value(f.Params[2]) {
+			if stripConv(ed) == ssa.Value(fromP) {
 				fromParam = true
 			}
 			if next != nil && stripConv(ed) == next {
@@ -252,12 +261,12 @@ func checkReplayPaged(c *Ctx, p *Prog, R *BusRoles, rule string) {
 	polled := false
 	for b := range body {
 		for _, in := range b.Instrs {
-			if _, _, cv, ok := ctxDoneSelect(in); ok && stripConv(cv) == ssa.Value(f.Params[1]) && b.Dominates(read.Block()) {
+			if _, _, cv, ok := ctxDoneSelect(in); ok && stripConv(cv) == ssa.Value(ctxP) && b.Dominates(read.Block()) {
 				polled = true
 			}
 		}
 	}
-	c.Check(polled && stripConv(read.Common().Args[0]) == ssa.Value(f.Params[1]), rule, "Replay/paged/context", pos, "the context is polled before every page and handed to Read", "the paged replay does not poll its context before each page (or does not pass it to Read): a cancelled replay keeps going or returns nil")
+	c.Check(polled && stripConv(read.Common().Args[0]) == ssa.Value(ctxP), rule, "Replay/paged/context", pos, "the context is polled before every page and handed to Read", "the paged replay does not poll its context before each page (or does not pass it to Read): a cancelled replay keeps going or returns nil")
 }
 
 func exitName(b *ssa.BasicBlock, i int, evs, next, rerr ssa.Value, cursor *ssa.Phi) string {
@@ -418,14 +427,17 @@ func (r *yieldRule) OnInstr(e *Engine, st *State, fc *FrameCtx, in ssa.Instructi
 }
 
 func checkReplayStream(c *Ctx, p *Prog, R *BusRoles, rule string) {
-	f := p.Method(PkgBus, "EventBus", "Replay")
-	if f == nil {
+	root := p.Method(PkgBus, "EventBus", "Replay")
+	if root == nil {
 		return
 	}
+	f := root
 	var y *ssa.Function
-	for _, a := range f.AnonFuncs {
-		if strings.Contains(a.Synthetic, "range-over-func yield") {
-			y = a
+	for _, g := range reachFuncs(p, root, PkgBus) {
+		for _, a := range g.AnonFuncs {
+			if strings.Contains(a.Synthetic, "range-over-func yield") && len(a.Params) == 2 && typeName(a.Params[0].Type()) == "StoredEvent" {
+				y, f = a, g
+			}
 		}
 	}
 	if y == nil || len(y.Params) != 2 {
@@ -437,8 +449,15 @@ func checkReplayStream(c *Ctx, p *Prog, R *BusRoles, rule string) {
 	for _, b := range f.Blocks {
 		for _, in := range b.Instrs {
 			if call, ok := in.(*ssa.Call); ok && call.Common().IsInvoke() && call.Common().Method.Name() == "ReadStream" {
-				if stripConv(call.Common().Args[0]) == ssa.Value(f.Params[1]) && stripConv(call.Common().Args[1]) == ssa.Value(f.Params[2]) {
+				if stripConv(call.Common().Args[0]) == ssa.Value(paramOfType(f, "context", "Context")) && stripConv(call.Common().Args[1]) == ssa.Value(paramOfType(f, PkgBus, "Offset")) {
 					okSrc = true
+				}
+			}
+			// or the stream is handed to a helper already opened with (ctx, from)
+			if call, ok := in.(*ssa.Call); ok && f != root {
+				_ = call
+				if prm := paramOfSeq(f); prm != nil {
+					okSrc = streamArgIsReadStream(p, root, f, prm)
 				}
 			}
 		}
@@ -589,7 +608,10 @@ type iterRule struct {
 }
 
 func (r *iterRule) Inline(fn *ssa.Function) bool { return PkgOf(fn) == r.pkg }
-func (r *iterRule) PredOK(k string) bool          { return strings.HasPrefix(k, "v:") }
+func (r *iterRule) PredOK(k string) bool {
+	// results of inlined helpers: boolean results and the nil-ness of returned errors
+	return strings.HasPrefix(k, "v:") || strings.HasPrefix(k, "(nil==v:")
+}
 
 // sigma: [0] stopped (n/y), [1] pending error (n/y)
 func (r *iterRule) isYield(e *Engine, fc *FrameCtx, c *ssa.CallCommon) bool {
@@ -666,21 +688,19 @@ func (r *iterRule) OnExit(e *Engine, st *State, kind ExitKind) {
 
 func checkIterProtocol(c *Ctx, p *Prog, pkg, typ, rule string) {
 	m := p.Method(pkg, typ, "ReadStream")
-	if m == nil || len(m.AnonFuncs) == 0 {
-		c.Unresolved(rule, "UNRESOLVED-ANCHOR/"+typ+".ReadStream", "method or its iterator closure not found")
+	it := iteratorOf(p, m)
+	if m == nil || it == nil {
+		c.Unresolved(rule, "UNRESOLVED-ANCHOR/"+typ+".ReadStream", "method or its iterator function not found")
 		return
-	}
-	it := m.AnonFuncs[0]
-	for _, a := range m.AnonFuncs {
-		if len(a.Params) == 1 {
-			if _, ok := a.Params[0].Type().Underlying().(*types.Signature); ok {
-				it = a
-			}
-		}
 	}
 	e := NewEngine(p)
 	r := &iterRule{p: p, pkg: pkg}
-	r.yield = "param:" + fnName(it) + "." + it.Params[0].Name()
+	yp := paramOfYield(it)
+	if yp == nil {
+		c.Unresolved(rule, "UNRESOLVED-ANCHOR/"+typ+".ReadStream/yield", "the iterator has no yield parameter")
+		return
+	}
+	r.yield = "param:" + fnName(it) + "." + yp.Name()
 	e.Run(r, it, "nn")
 	c.Stats["product_states"] += e.States
 	name := typ + ".ReadStream"
@@ -827,11 +847,11 @@ func checkMaterializerReplay(c *Ctx, p *Prog, rule string) {
 // cancelled context, so it must poll the context before every yield of an event.
 func checkMemoryStreamPolls(c *Ctx, p *Prog, rule string) {
 	m := p.Method(PkgBus, "MemoryStore", "ReadStream")
-	if m == nil || len(m.AnonFuncs) == 0 {
-		c.Unresolved(rule, "UNRESOLVED-ANCHOR/MemoryStore.ReadStream", "iterator closure not found")
+	it := iteratorOf(p, m)
+	if m == nil || it == nil {
+		c.Unresolved(rule, "UNRESOLVED-ANCHOR/MemoryStore.ReadStream", "iterator function not found")
 		return
 	}
-	it := m.AnonFuncs[0]
 	li := loopsOf(it)
 	n := 0
 	for _, b := range it.Blocks {
@@ -866,4 +886,100 @@ func checkMemoryStreamPolls(c *Ctx, p *Prog, rule string) {
 func isPollAt(x ssa.Instruction) bool {
 	_, _, _, ok := ctxDoneSelect(x)
 	return ok
+}
+
+// paramOfType returns the first parameter of f with the given named type.
+func paramOfType(f *ssa.Function, pkg, name string) *ssa.Parameter {
+	for _, prm := range f.Params {
+		if isNamed(prm.Type(), pkg, name) {
+			return prm
+		}
+	}
+	return nil
+}
+
+// paramOfSeq: a parameter that is an iterator (func(yield) type).
+func paramOfSeq(f *ssa.Function) *ssa.Parameter {
+	for _, prm := range f.Params {
+		if sig, ok := prm.Type().Underlying().(*types.Signature); ok && sig.Params().Len() == 1 {
+			if _, ok := sig.Params().At(0).Type().Underlying().(*types.Signature); ok {
+				return prm
+			}
+		}
+	}
+	return nil
+}
+
+// streamArgIsReadStream: at the call of helper f inside root, the iterator argument is
+// ReadStream(ctx, from) of the store with root's own ctx and from.
+func streamArgIsReadStream(p *Prog, root, f *ssa.Function, prm *ssa.Parameter) bool {
+	idx := -1
+	for i, x := range f.Params {
+		if x == prm {
+			idx = i
+		}
+	}
+	for _, b := range root.Blocks {
+		for _, in := range b.Instrs {
+			call, ok := in.(*ssa.Call)
+			if !ok || call.Common().StaticCallee() != f || idx >= len(call.Common().Args) {
+				continue
+			}
+			rs, ok := stripConv(call.Common().Args[idx]).(*ssa.Call)
+			if !ok || !rs.Common().IsInvoke() || rs.Common().Method.Name() != "ReadStream" {
+				continue
+			}
+			return stripConv(rs.Common().Args[0]) == ssa.Value(paramOfType(root, "context", "Context")) && stripConv(rs.Common().Args[1]) == ssa.Value(paramOfType(root, PkgBus, "Offset"))
+		}
+	}
+	return false
+}
+
+// iteratorOf returns the function that ReadStream hands back as the iterator: a closure
+// literal, or a method bound to a small struct (closure converted to a method value).
+func iteratorOf(p *Prog, rs *ssa.Function) *ssa.Function {
+	if rs == nil {
+		return nil
+	}
+	for _, ret := range returnsOf(rs) {
+		if len(ret.Results) != 1 {
+			continue
+		}
+		mc, ok := stripConv(ret.Results[0]).(*ssa.MakeClosure)
+		if !ok {
+			continue
+		}
+		fn := mc.Fn.(*ssa.Function)
+		if fn.Synthetic == "" {
+			return fn
+		}
+		// bound method wrapper: the method it forwards to
+		if obj, ok := fn.Object().(*types.Func); ok && obj != nil {
+			if m := p.SSA.FuncValue(obj); m != nil && len(m.Blocks) > 0 {
+				return m
+			}
+		}
+		for _, b := range fn.Blocks {
+			for _, in := range b.Instrs {
+				if call, ok := in.(*ssa.Call); ok {
+					if sc := call.Common().StaticCallee(); sc != nil && p.InScope(sc) {
+						return sc
+					}
+				}
+			}
+		}
+	}
+	if len(rs.AnonFuncs) > 0 {
+		return rs.AnonFuncs[0]
+	}
+	return nil
+}
+
+func paramOfYield(f *ssa.Function) *ssa.Parameter {
+	for _, prm := range f.Params {
+		if sig, ok := prm.Type().Underlying().(*types.Signature); ok && sig.Params().Len() == 2 && sig.Results().Len() == 1 {
+			return prm
+		}
+	}
+	return nil
 }
